@@ -37,6 +37,12 @@ def main(tier, seed):
     chk = Check("C17", tier, seed)
     chk.assumptions = list(ASSUMPTIONS)
     c17.obligations(chk)
+    # accessors answer for the spelling they are given (both orders of first use): name / qualname / unwrap are memoised by
+    # typing's order-insensitive equality - a listed known finding (same root cause as C12's); every other accessor must be stable
+    kf = [k for k in Check.known_findings("C17") if k["id"] == "C17-memoised-accessor-member-order"]
+    known = c17.order_stability_obligations(chk, known=("name", "qualname", "unwrap") if kf else ())
+    if known and kf:
+        chk.kf_lines.append(f"KNOWN-FINDING: property=C17 {kf[0]['print']}")
     fails, n, d = c17_concrete.search(stop_at=3)
     chk.bounded.append({"name": "exhaustive catalogue differential: class-valued predicates x catalogue, union/optional predicates x spellings (real code vs Python's own answers)",
                         "evaluations": n, "distinct_nontrivial": d, "failures": len(fails),
